@@ -23,6 +23,7 @@ INSTANTS = [
     (1970, 1, 1, 1, 11, 35, 0), (2000, 2, 29, 12, 0, 0, 0), (2038, 1, 19, 3, 14, 8, 0), (2020, 3, 29, 2, 30, 0, 0), (2020, 10, 25, 2, 30, 0, 0),
     (2020, 11, 1, 1, 30, 0, 0), (2021, 4, 4, 1, 45, 0, 0), (9999, 12, 31, 23, 59, 59, 999999), (2022, 6, 15, 12, 30, 45, 123456),
     (1969, 12, 31, 23, 59, 58, 500000), (1950, 6, 1, 0, 0, 0, 250000), (1970, 1, 1, 0, 0, 1, 750000), (1901, 12, 13, 20, 45, 51, 500000),
+    (2023, 11, 14, 0, 0, 0, 0), (1999, 12, 31, 0, 0, 0, 0),
 ]
 ZONES = ["None", "UTC", "Z('UTC')", "off(5,30)", "off(5,neg=True)", "off(14)", "off(12,neg=True)", "off(1,2,3)", "off(0,19,32,neg=True)",
          "Z('Europe/Amsterdam')", "Z('America/New_York')", "Z('Australia/Lord_Howe')", "Z('Europe/London')"]
@@ -81,6 +82,19 @@ def forms_of(src):
         sign = "-" if off < 0 else "+"
         a = abs(int(off))
         out.append(("iso+HHMM", src.replace(tzinfo=None).isoformat() + "%s%02d%02d" % (sign, a // 3600, a % 3600 // 60), inst, off))
+    # ISO 8601 basic (compact) forms, which Python >= 3.11 parses: digits only, they must not be taken for a number
+    if src.year >= 1000:
+        if src.tzinfo is None or whole_min:
+            basic = src.strftime("%Y%m%dT%H%M%S") + (".%06d" % src.microsecond if src.microsecond else "")
+            if src.tzinfo is not None:
+                sign = "-" if off < 0 else "+"
+                a = abs(int(off))
+                basic += "%s%02d%02d" % (sign, a // 3600, a % 3600 // 60)
+            out.append(("iso-basic", basic, inst, off))
+        if (src.hour, src.minute, src.second, src.microsecond) == (0, 0, 0, 0) and (src.tzinfo is None or off == 0):
+            out.append(("iso-date-basic", src.strftime("%Y%m%d"), inst, 0.0))
+            out.append(("iso-date", src.strftime("%Y-%m-%d"), inst, 0.0))
+            out.append(("iso-date-basic-bytes", src.strftime("%Y%m%d").encode(), inst, 0.0))
     # epoch forms where the instant is a whole / representable number of seconds
     days, secs, us = inst
     epoch_days = (_d.date(1970, 1, 1) - _d.date(1, 1, 1)).days
@@ -137,7 +151,7 @@ def worker():
                 if offs(x) != off:
                     res["viol"].append(["construct:offset-changed:%s" % form, {"want": off, "got": offs(x)}])
             try:
-                rec = desc(ts=x, _generated=gen)
+                rec = desc(ts=x, _generated=x)  # the metadata timestamp travels the same roads as a declared one
             except Exception as e:  # noqa: BLE001
                 res["viol"].append(["record-construction-raises-%s" % type(e).__name__, {}])
                 print(json.dumps(res))
@@ -189,7 +203,9 @@ def worker():
                 data = buf.getvalue()
                 w.fp = None
                 res["h"]["stream:bytes"] = hashlib.sha256(data).hexdigest()[:12]
-                judge("stream", list(RecordStreamReader(io.BytesIO(data)))[0].ts, xo)
+                back = list(RecordStreamReader(io.BytesIO(data)))[0]
+                judge("stream", back.ts, xo)
+                judge("stream:_generated", back._generated, xo)
             except Exception as e:  # noqa: BLE001
                 res["viol"].append(["stream:raises-%s" % type(e).__name__, {"error": repr(e)[:120]}])
             # json
@@ -202,7 +218,9 @@ def worker():
                 q = JsonRecordPacker()
                 for ln in lines:
                     q.unpack(ln)
-                judge("json", q.unpack(line).ts, xo)
+                back = q.unpack(line)
+                judge("json", back.ts, xo)
+                judge("json:_generated", back._generated, xo)
             except Exception as e:  # noqa: BLE001
                 res["viol"].append(["json:raises-%s" % type(e).__name__, {"error": repr(e)[:120]}])
             # sqlite
@@ -213,12 +231,14 @@ def worker():
                 w.flush()
                 w.close()
                 con = sqlite3.connect(path)
-                cell = con.execute('SELECT ts FROM "c13/ts"').fetchone()[0]
+                cell = con.execute('SELECT ts, _generated FROM "c13/ts"').fetchone()
                 con.close()
-                res["h"]["sqlite:cell"] = hashlib.sha256(repr(cell).encode()).hexdigest()[:12]
+                res["h"]["sqlite:cell"] = hashlib.sha256(repr(cell[0]).encode()).hexdigest()[:12]
+                res["h"]["sqlite:cell:_generated"] = hashlib.sha256(repr(cell[1]).encode()).hexdigest()[:12]
                 rd = RecordReader("sqlite://" + path)
-                got = list(rd)[0].ts
-                judge("sqlite", got, xo)
+                back = list(rd)[0]
+                judge("sqlite", back.ts, xo)
+                judge("sqlite:_generated", back._generated, xo)
             except Exception as e:  # noqa: BLE001
                 res["viol"].append(["sqlite:raises-%s" % type(e).__name__, {"error": repr(e)[:120]}])
             finally:
@@ -241,9 +261,10 @@ def worker():
                         raw = list(fastavro.reader(f))[0]["ts"]
                     res["h"]["avro:value"] = hashlib.sha256(repr(raw.isoformat() if hasattr(raw, "isoformat") else raw).encode()).hexdigest()[:12]
                     rd = RecordReader(path)
-                    got = list(rd)[0].ts
+                    back = list(rd)[0]
                     rd.close()
-                    judge("avro", got, 0.0)
+                    judge("avro", back.ts, 0.0)
+                    judge("avro:_generated", back._generated, 0.0)
                 except Exception as e:  # noqa: BLE001
                     if utc_ok:
                         res["viol"].append(["avro:raises-%s" % type(e).__name__, {"error": repr(e)[:120]}])
